@@ -37,29 +37,59 @@ type world struct {
 	multiRun bool        // several runs share node names: the one-state-per-unit check does not apply
 }
 
+// The world's own bookkeeping is shared by harness code running on different goroutines: vsched.HLock is a
+// no-op under the scheduler (a body is atomic between scheduling points) and a mutex in the race pass.
+// The STATE object is different: eino hands it to handlers / ProcessState under its own lock, so the harness
+// touches it WITHOUT any lock of its own, and only through the einoGuarded* methods below: the race pass
+// attributes an unsynchronised access inside them to the eino function that called into the harness
+// (lib/harness/race.go, guardedMarker).
+
 func (w *world) gen(tag string) func(ctx context.Context) *St {
 	return func(ctx context.Context) *St {
+		vsched.HLock()
 		w.nextID++
 		s := &St{ID: w.nextID}
 		w.states = append(w.states, s)
+		vsched.HUnlock()
 		return s
 	}
 }
 
+//go:noinline
+func (s *St) einoGuardedEnter(who string) int {
+	s.Log = append(s.Log, "enter:"+who)
+	return s.Counter
+}
+
+//go:noinline
+func (s *St) einoGuardedWrite(c int) { s.Counter = c }
+
+//go:noinline
+func (s *St) einoGuardedAdd(n int) { s.Counter += n }
+
+//go:noinline
+func (s *St) einoGuardedExit(who string) { s.Log = append(s.Log, "exit:"+who) }
+
+//go:noinline
+func (s *St) einoGuardedSnapshot() (int, []string) { return s.Counter, append([]string{}, s.Log...) }
+
 // section is a critical section body: enter marker, read, yield, write, exit marker.
 func (w *world) section(who string, s *St, yield bool) {
+	vsched.HLock()
 	if prev, ok := w.seenBy[who]; ok && prev != s.ID && !w.multiRun {
 		w.idErr = fmt.Sprintf("%s saw state #%d and later state #%d", who, prev, s.ID)
 	}
 	w.seenBy[who] = s.ID
-	s.Log = append(s.Log, "enter:"+who)
-	c := s.Counter
+	vsched.HUnlock()
+	c := s.einoGuardedEnter(who)
 	if yield {
 		vsched.Yield()
 	}
-	s.Counter = c + 1
+	s.einoGuardedWrite(c + 1)
+	vsched.HLock()
 	w.expected[s.ID]++
-	s.Log = append(s.Log, "exit:"+who)
+	vsched.HUnlock()
+	s.einoGuardedExit(who)
 }
 
 type spec struct {
@@ -140,7 +170,9 @@ func (sp *spec) nodeOpts(w *world, scope, key string) []compose.GraphAddNodeOpt 
 
 func (sp *spec) lambda(w *world, scope, key string, seen map[string]string) *compose.Lambda {
 	return compose.InvokableLambda(func(ctx context.Context, in Val) (Val, error) {
+		vsched.HLock() // seen is shared by the node bodies
 		seen[scope+key] = gprog.Canon(in)
+		vsched.HUnlock()
 		if sp.process {
 			err := compose.ProcessState(ctx, func(ctx context.Context, s *St) error {
 				w.section(scope+"body:"+key, s, sp.yield)
@@ -273,7 +305,9 @@ func (sp *spec) build() (func(), func(x *vsched.Exec) (string, error)) {
 				i := i
 				vsched.GoNamed(fmt.Sprintf("caller%d", i), func() {
 					results[i], errs[i] = run(r, sp.call, Val{"in": fmt.Sprint("x", i)})
+					vsched.HLock()
 					done++
+					vsched.HUnlock()
 				})
 			}
 		case "resume":
@@ -285,7 +319,7 @@ func (sp *spec) build() (func(), func(x *vsched.Exec) (string, error)) {
 				var c int
 				var log []string
 				err := compose.ProcessState(ctx, func(ctx context.Context, s *St) error {
-					c, log = s.Counter, append([]string{}, s.Log...)
+					c, log = s.einoGuardedSnapshot()
 					return nil
 				})
 				return Val{"b": fmt.Sprintf("counter=%d log=%v", c, log)}, err
@@ -315,7 +349,7 @@ func (sp *spec) build() (func(), func(x *vsched.Exec) (string, error)) {
 			v, err := run(r, sp.call, Val{"in": "ignored"}, compose.WithCheckPointID("cp"),
 				compose.WithStateModifier(func(ctx context.Context, path compose.NodePath, state any) error {
 					if s, ok := state.(*St); ok {
-						s.Counter += 100
+						s.einoGuardedAdd(100)
 					}
 					return nil
 				}))
@@ -493,9 +527,11 @@ func main() {
 	c.Res.Assumptions = []string{
 		"sequential consistency at synchronisation granularity; critical-section bodies are atomic apart from their explicit yield",
 		"no happens-before state caching: a missing lock makes the state plain shared memory",
+		harness.RacePassAssumption + "; here the harness's own accesses to the state object inside handlers / ProcessState count as eino-owned (the state is what eino must serialise) and are attributed to the eino function that called the handler",
 	}
-	c.Res.Explanation = "stateless exhaustive exploration of real stateful graph runs; oracle per execution: counter equals the number of increments (no lost update), enter/exit markers never interleave (mutual exclusion), pre-handler before body before post-handler per node, handler return values are what the node and END receive, one state object per run and a distinct one per nested stateful graph and per concurrent run, and after interrupt+resume the state equals the state at the interrupt plus the StateModifier's change"
+	c.Res.Explanation = "stateless exhaustive exploration of real stateful graph runs; oracle per execution: counter equals the number of increments (no lost update), enter/exit markers never interleave (mutual exclusion), pre-handler before body before post-handler per node, handler return values are what the node and END receive, one state object per run and a distinct one per nested stateful graph and per concurrent run, and after interrupt+resume the state equals the state at the interrupt plus the StateModifier's change. " + harness.RacePassExplanation
 	quick := c.Quick()
+	rp := c.StartRacePass("./checks/c11") // worker 0 only: native -race build of this package, free runs of the scenario bodies
 	bounds := []int{0, 1, 2}
 	if !quick {
 		bounds = []int{0, 1, 2, 3}
@@ -565,5 +601,6 @@ func main() {
 		}
 	}
 	c.ExploreAll()
+	rp.Collect()
 	c.Finish()
 }
